@@ -378,6 +378,14 @@ def run(ctx):
     pu = ctx.body(CU)
     ctx.check(bool(pu.call_blocks(lambda d: d.endswith("std::panic::catch_unwind") or d.endswith("panic::catch_unwind"))), "C20-R4", "panic_utils:catch_unwind",
               "panic_utils::catch_unwind calls std::panic::catch_unwind", "panic_utils::catch_unwind no longer catches panics", site=pu.where())
+    # error excerpts of user JSON are cut at a char boundary (a byte-index slice of a user string panics inside a character)
+    ls = ctx.body(JS + "limited_str")
+    idx = [bi for bi, t in ls.calls() if "Index<" in t["f"].get("full", "") and "Range" in t["f"].get("full", "")]
+    g = L.guard_edges(ls, lambda e: e[0] == "call" and e[1].endswith("::is_char_boundary"), True)
+    ctx.check(bool(idx) and bool(g) and not L.dominated_by_cut(ls, idx, g), "C20-R4", "str-slice:llguidance::json::schema::limited_str",
+              "the truncation index of limited_str is established by is_char_boundary()",
+              "limited_str slices a user-controlled string at a byte index that is not checked with is_char_boundary(): a long non-ASCII "
+              "schema value panics while an error message is being built", site=ls.where())
     # Rust-API entry points that are not wrapped (information)
     gv = P.bodies.get("llguidance::earley::from_guidance::<impl llguidance::api::GrammarInit>::validate")
     ctx.info("C20-R4", "GrammarInit::validate is a Rust-API entry point that compiles grammars without catch_unwind (panics propagate to the Rust caller)")
